@@ -1471,6 +1471,9 @@ class RTCSctpTransport(AsyncIOEventEmitter):
             (tsn - self._last_received_tsn) % SCTP_TSN_MODULO
             for tsn in self._sack_misordered
         ):
+            # gap ack block offsets are 16 bits wide
+            if pos > 0xFFFF:
+                break
             tsn = (self._last_received_tsn + pos) % SCTP_TSN_MODULO
             if tsn == gap_next:
                 gaps[-1][1] = pos
